@@ -114,6 +114,223 @@ def record(tid, wd, hist):
         m.close()
 
 
+# ---- two levels: /placement/<server>/<instance> with the callbacks of sproc/zk2fs.py ----------
+SRV = ['s1', 's2', 's3']
+INS = ['i1', 'i2']
+PDIR = '/placement'
+
+
+class _Died(BaseException):
+    """utils.sys_exit called: the mirror process is gone."""
+
+
+class Mirror2(Mirror):
+    def __init__(self):         # pylint: disable=super-init-not-called
+        from treadmill.zksync import zk2fs
+        from treadmill.sproc import zk2fs as sproc_zk2fs
+        from treadmill import utils
+        self._zk2fs, self._sproc, self._utils = zk2fs, sproc_zk2fs, utils
+        self.store = zkfake.ZkStore()
+        self.env = zkfake.ZkFakeClient(self.store)
+        self.env.ensure_path(PDIR)
+        self.root = tlc.scratch('verif-zk2fs2-')
+        self.store.deferred = []
+        self.obj = None
+        self.up = False
+        self.start()
+
+    def _guard(self, fn):
+        def die(_code):
+            raise _Died()
+        from unittest import mock
+        try:
+            with mock.patch.object(self._utils, 'sys_exit', die):
+                fn()
+        except _Died:
+            self.stop()
+
+    def start(self):
+        tmp = os.path.join(self.root, '.tmp')
+        os.makedirs(tmp, exist_ok=True)
+        client = zkfake.ZkFakeClient(self.store)
+        self.obj = obj = self._zk2fs.Zk2Fs(client, self.root, tmp)
+        self.up = True
+        sp = self._sproc
+        self._guard(lambda: (obj.sync_children(
+            PDIR, on_add=lambda p: sp._on_add_placement_server(obj, p),      # pylint: disable=protected-access
+            on_del=lambda p: sp._on_del_placement_server(obj, p)),           # pylint: disable=protected-access
+            obj.mark_ready()))
+
+    def apply(self, ev):
+        kind = ev[0]
+        if kind == 'CreateServer':
+            self.env.create('%s/%s' % (PDIR, ev[1]), b'')
+        elif kind == 'DeleteServer':
+            self.env.delete('%s/%s' % (PDIR, ev[1]))
+        elif kind == 'CreateInst':
+            self.env.create('%s/%s/%s' % (PDIR, ev[1], ev[2]), b'v%d' % ev[3])
+        elif kind == 'DeleteInst':
+            self.env.delete('%s/%s/%s' % (PDIR, ev[1], ev[2]))
+        elif kind == 'Deliver':
+            if self.up and self.store.deferred:
+                fn, event = self.store.deferred.pop(0)
+                self._guard(lambda: fn(event))
+        elif kind == 'Stop':
+            self.stop()
+        elif kind == 'Start':
+            self.start()
+        else:
+            raise ValueError(ev)
+
+    def project(self):
+        zs, zi, fd, ff = {}, {}, {}, {}
+        base = os.path.join(self.root, PDIR.lstrip('/'))
+        for s in SRV:
+            zs[s] = ('%s/%s' % (PDIR, s)) in self.store.nodes
+            zi[s], ff[s] = {}, {}
+            d = os.path.join(base, s)
+            fd[s] = os.path.isdir(d)
+            for i in INS:
+                n = self.store.nodes.get('%s/%s/%s' % (PDIR, s, i))
+                zi[s][i] = int(n.data[1:]) if n is not None else 0
+                fp = os.path.join(d, i)
+                if os.path.isfile(fp):
+                    with open(fp, 'rb') as f:
+                        data = f.read()
+                    ff[s][i] = int(data[1:]) if data[:1] == b'v' and data[1:].isdigit() else -1
+                else:
+                    ff[s][i] = 0
+        return dict(zs=zs, zi=zi, fd=fd, ff=ff, qlen=len(self.store.deferred), up=self.up)
+
+
+def record2(tid, hist):
+    m = Mirror2()
+    try:
+        lines = [dict(ev='Init', s='', i='', v=0, post=m.project())]
+        for ev in hist:
+            m.apply(ev)
+            lines.append(dict(ev=ev[0], s=ev[1] if len(ev) > 1 else '', i=ev[2] if len(ev) > 2 else '',
+                              v=ev[3] if len(ev) > 3 else 0, post=m.project()))
+        return dict(tid=tid, lines=lines)
+    finally:
+        m.close()
+
+
+def from_labels2(labels):
+    hist = []
+    for a, args in labels:
+        args = [json.loads(x) if isinstance(x, str) and x.startswith('"') else x for x in args]
+        if a in ('CreateServer', 'DeleteServer'):
+            hist.append((a, args[0]))
+        elif a == 'CreateInst':
+            hist.append((a, args[0], args[1], int(args[2])))
+        elif a == 'DeleteInst':
+            hist.append((a, args[0], args[1]))
+        elif a in ('Deliver', 'Stop', 'Start'):
+            hist.append((a,))
+    return hist
+
+
+def gen_random2(rng, n, p_deliver=0.35, p_life=0.03):
+    zs = {s: False for s in SRV}
+    zi = {s: {i: 0 for i in INS} for s in SRV}
+    up, hist = True, []
+    while len(hist) < n:
+        r = rng.random()
+        if not up:
+            if r < 0.5:
+                hist.append(('Start',))
+                up = True
+            continue
+        if r < p_life:
+            hist.append(('Stop',))
+            up = False
+            continue
+        if r < p_life + p_deliver:
+            hist.append(('Deliver',))
+            continue
+        s = rng.choice(SRV[:rng.choice([1, 2, 3])])
+        if not zs[s]:
+            zs[s] = True
+            hist.append(('CreateServer', s))
+        elif rng.random() < 0.3 and not any(zi[s].values()):
+            zs[s] = False
+            hist.append(('DeleteServer', s))
+        else:
+            i = rng.choice(INS)
+            if zi[s][i]:
+                zi[s][i] = 0
+                hist.append(('DeleteInst', s, i))
+            else:
+                zi[s][i] = rng.randint(1, 3)
+                hist.append(('CreateInst', s, i, zi[s][i]))
+    if not up:
+        hist.append(('Start',))
+    return hist + [('Deliver',)] * 14
+
+
+def run_ext2(ctx):
+    """The two-level mirror (/placement): model check what holds, show what does not, replay, validate."""
+    out = dict(spec='specs/cell/ZkMirror2.tla (+ ZkMirror2Ops, ZkMirror2Trace)', model_runs=[], model_gaps=[])
+    big = None
+    if not ctx.quick:
+        text = open(os.path.join(SPEC_DIR, 'MC_ZkMirror2.cfg')).read().replace('MaxEnv = 6', 'MaxEnv = 8')
+        big = {'MC_ZkMirror2_big.cfg': text}
+    res = tlc.mc(SPEC_DIR, 'ZkMirror2', 'MC_ZkMirror2_big.cfg' if big else 'MC_ZkMirror2.cfg', workers=4 if ctx.quick else 12,
+                 coverage=ctx.quick, heap='4g', timeout=120 if ctx.quick else 900, extra_files=big)
+    ctx.cmds.append(res['cmd'])
+    if res['violated']:
+        raise tlc.MachineryError('ZkMirror2.tla violates its own invariant %s' % res['violated'])
+    out['model_runs'].append(dict(name='zk2fs two levels', generated=res['generated'], distinct=res['distinct'],
+                                  depth=res['depth'], complete=res['ok'],
+                                  invariants=['InvDirs', 'InvBackedExact', 'InvArmed', 'InvFilesInDirs']))
+    hists = []
+    for name, inv in (('backed', 'InvBacked'), ('complete', 'InvComplete'), ('extra', 'InvNoExtra'), ('death', 'InvNoDeath')):
+        gap = tlc.mc(SPEC_DIR, 'ZkMirror2', 'MC_ZkMirror2_%s.cfg' % name, workers=2, coverage=False, heap='2g', timeout=120)
+        out['model_gaps'].append(dict(invariant=inv, violated=bool(gap['violated']), steps=len(gap['cex'])))
+        if gap['violated']:
+            labels = [(a, tlc.tlaval.split_args(b)) for a, b in gap['cex'] if a not in ('Initial', 'Init')]
+            hists.append(('cex:' + name, from_labels2(labels)))
+    text = '\n'.join(l for l in open(os.path.join(SPEC_DIR, 'MC_ZkMirror2.cfg')).read().splitlines()
+                     if not l.startswith('INVARIANTS')).replace('MaxEnv = 6', 'MaxEnv = 9')
+    bs, cmd = tlc.simulate(SPEC_DIR, 'ZkMirror2', 'MC_ZkMirror2_gen.cfg', num=60 if ctx.quick else 1500, depth=16,
+                           seed=ctx.seed * 19 + 1, procs=1 if ctx.quick else 4, timeout=120 if ctx.quick else 600,
+                           extra_files={'MC_ZkMirror2_gen.cfg': text})
+    ctx.cmds.append(cmd)
+    hists += [('tlc', from_labels2(b)) for b in bs]
+    rng = random.Random(ctx.seed * 7001 + 13)
+    hists += [('rnd', gen_random2(rng, rng.choice([12, 25, 40]))) for _ in range(150 if ctx.quick else 4000)]
+    traces = [record2('y%d' % n, h) for n, (_src, h) in enumerate(hists)]
+    work = tlc.scratch('verif-zk2fs2-batch-')
+    try:
+        path = os.path.join(work, 'batch.json')
+        with open(path, 'w') as f:
+            json.dump(dict(traces=traces), f)
+        verdicts, stats = tlc.validate(SPEC_DIR, 'ZkMirror2Trace', 'ZkMirror2Trace.cfg', path,
+                                       timeout=300 if ctx.quick else 1500, heap='4g')
+    finally:
+        shutil.rmtree(work, ignore_errors=True)
+    ctx.cmds.append(stats['cmd'])
+    total = sum(len(t['lines']) - 1 for t in traces)
+    if len(verdicts) != total:
+        raise tlc.MachineryError('zk2fs2: %d verdicts for %d lines' % (len(verdicts), total))
+    fails, flags, bad = {}, {}, set()
+    for v in verdicts:
+        for c in v['fail']:
+            if v['tid'] not in bad or c != 'ext.zk2fs2.step':
+                fails[c] = fails.get(c, 0) + 1
+            bad.add(v['tid'])
+        for e in v['ex']:
+            flags[e] = flags.get(e, 0) + 1
+    for c, n in sorted(fails.items()):
+        ctx.log('DRIFT %s: %d step(s) (beyond the listed properties; exit code unaffected)' % (c, n))
+    out.update(traces=len(traces), lines=total, sources={s: sum(1 for h in hists if h[0] == s)
+                                                         for s in sorted({h[0] for h in hists})},
+               drift=fails, exercised=flags)
+    ctx.log('ext zk2fs (two levels): %d traces, %d lines, drift %s, flags %s' % (len(traces), total, fails or 0, flags))
+    return out
+
+
 # ---- histories --------------------------------------------------------------
 def from_labels(labels):
     hist = []
